@@ -1,8 +1,8 @@
 #!/bin/bash
-# usage: tools/seedconfirm.sh <Cxx> <k>   -- confirms seed /tmp/seed/Cxx-out/k in the scratch worktree /tmp/seedconfirm:
+# usage: [SEEDROOT=/tmp/seed2 OFFSET=2] tools/seedconfirm.sh <Cxx> <k>   -- confirms seed $SEEDROOT/Cxx-out/k (stored as Cxx-(k+OFFSET)) in the scratch worktree /tmp/seedconfirm:
 # demo passes at HEAD, fails with the patch, full suite still passes with the patch; stores it under /verif/seeded/Cxx-k/
 set -u
-ID=$1; K=$2; SRC=/tmp/seed/$ID-out/$K; W=/tmp/seedconfirm; T=/tmp/seedconfirm-target
+ID=$1; K=$2; SRC=${SEEDROOT:-/tmp/seed}/$ID-out/$K; KK=$((K+${OFFSET:-0})); W=/tmp/seedconfirm; T=/tmp/seedconfirm-target
 [ -d $W ] || { git -C /repo worktree add -q --detach $W HEAD; cp /repo/Cargo.lock $W/; }
 git -C $W checkout -q --detach $(git -C /repo rev-parse HEAD); git -C $W checkout -q -- .; git -C $W clean -fdq -e Cargo.lock
 export CARGO_NET_OFFLINE=true CARGO_TARGET_DIR=$T
@@ -15,7 +15,7 @@ git -C $W apply $SRC/patch.diff || { echo "$ID/$K: patch does not apply"; exit 2
 SUITE=$(cd $W && cargo test --offline 2>&1 | grep "^test result" | head -1)
 git -C $W checkout -q -- .; git -C $W clean -fdq -e Cargo.lock
 echo "$ID/$K: demo@HEAD rc=$D0 demo@patched rc=$D1 suite: $SUITE"
-OUT=/verif/seeded/$ID-$K; mkdir -p $OUT; cp $SRC/patch.diff $OUT/; rm -rf $OUT/demo; cp -r $SRC/demo $OUT/demo
+OUT=/verif/seeded/$ID-$KK; mkdir -p $OUT; cp $SRC/patch.diff $OUT/; rm -rf $OUT/demo; cp -r $SRC/demo $OUT/demo
 python3 - "$SRC/meta.json" "$OUT/meta.json" "$D0" "$D1" "$SUITE" <<'PY'
 import json,sys
 m=json.load(open(sys.argv[1]))
